@@ -195,6 +195,20 @@ def c06_3(ctx):
     ctx.check(tr is not False and sym.entails(tr, r_call) and not any("exc@" in o for o in (gi.f_opaques(tr) if tr not in (True, False) else [])), "true-after-check", ctx.where(f),
               "Tx.is_solution_ok does not return True exactly after a check_solution call that did not raise")
     sym.against_reference(ctx, f, _ref(), "btx_is_solution_ok", "verdict-form", lambda t: t.startswith("len("))
+    # the same guard in check_solution itself (callers use it directly): no checker runs for an unknown spent output
+    cs_f = ctx.func(CTX, "Tx.check_solution")
+    cidx = cs_f.params()[1]
+    wc = sym.int_walk(ctx, cs_f, {"len(self.unspents)"}, {cidx})
+    runs = [e for e in wc.effects if e.kind == "call" and norm(e.call.func).endswith(".check_solution")]
+    if not runs:
+        raise Undecided("Tx.check_solution does not delegate to a checker's check_solution")
+    r_run = gi.f_or(*[e.reach for e in runs])
+    s_run = sym.may_set(r_run, U, E)
+    ctx.check(s_run.issubset(iv(("s", 1), None)), "check-solution-needs-unspent-length", ctx.where(cs_f),
+              "Tx.check_solution runs the checker when len(self.unspents) is in %s relative to the input index; without a recorded spent output the puzzle script is empty and any signed input validates" % s_run.fmt(cidx),
+              sample={"subject": "len(self.unspents)", "checker_runs_for": s_run.fmt(cidx)})
+    cnone = ("op", "self.unspents[%s] is None" % cidx)
+    ctx.check(sym.entails(r_run, gi.f_not(cnone)) and cnone[1] in gi.f_opaques(r_run), "check-solution-needs-unspent", ctx.where(cs_f), "Tx.check_solution runs the checker although unspents[index] is None")
     g = ctx.func(BTX, "Tx.missing_unspent")
     w3 = sym.int_walk(ctx, g, {"len(self.unspents)"}, {g.params()[1]})
     ft = sym.exits_formula(w3, lambda e: e.kind == "return" and isinstance(e.value, ast.Constant) and e.value.value is True)
